@@ -1315,6 +1315,29 @@ func (e *Env) evalRequires(x Expr, fn *ssa.Function) Term {
 		}
 	}
 	if droppable && sawUnknown {
+		// only when variables were *removed*: if the function also has names the baseline did not have,
+		// it was restructured (a renamed / regrouped variable), and the precondition is simply unevaluable
+		if b, ok := e.c.eng.baseShapes[qualFnName(fn)]; ok {
+			known := map[string]bool{}
+			for _, n := range b.Params {
+				known[n] = true
+			}
+			for _, n := range b.FreeVars {
+				known[n] = true
+			}
+			for _, p := range fn.Params {
+				if !known[p.Name()] {
+					droppable = false
+				}
+			}
+			for _, fv := range fn.FreeVars {
+				if !known[fv.Name()] {
+					droppable = false
+				}
+			}
+		}
+	}
+	if droppable && sawUnknown {
 		e.c.note(fmt.Sprintf("precondition conjunct `%s` of %s dropped: it names a variable the function no longer has", x.exprString(), qualFnName(fn)))
 		e.errs = e.errs[:n0]
 		return True
